@@ -1,7 +1,7 @@
 (* C16 — Compiled bytecode behaves like the tree-walking evaluator.
    Property theorems only; proofs are [exact <lemma of CompileProofs>]. *)
 From Coq Require Import ZArith NArith List String.
-From EvyV Require Import Base Bytecode SymTab Vm VmProofs Compile CompileSem CompileProofs CompileWfProofs CompileStmtProofs CompileJumpProofs CompileHoleProofs CompileCtlProofs CompileSemProofs CompileSymProofs CompileLocProofs.
+From EvyV Require Import Base Bytecode SymTab Vm VmProofs Compile CompileSem CompileProofs CompileWfProofs CompileStmtProofs CompileJumpProofs CompileHoleProofs CompileCtlProofs CompileSemProofs CompileSymProofs CompileLocProofs CompileCoverProofs.
 Import ListNotations.
 Open Scope list_scope.
 
@@ -189,6 +189,36 @@ Theorem C16_compile_correct_locals_partial : forall (p : slist) (st : cstate) (f
                           nth_error (globals s) (N.to_nat (sidx y)) = Some v.
 Proof. exact compile_correct_locals. Qed.
 Print Assumptions C16_compile_correct_locals_partial.
+
+(* ---------- how much of the compiler's input the fragment is ---------- *)
+(* EVERY program the compiler accepts lies in the fragment lfrag, unless it has
+   an element store `a[i] = e` / `m[k] = e`.  [plain_slist] (CompileSem.v)
+   says: no assignment whose target is an index expression — and two shapes
+   the parser never produces: a map literal with a key twice (len(Pairs) <>
+   len(Order); "duplicated map key" is a parse error) and a block as a
+   statement of its own.  (Function calls, typed declarations, `m.k`, and / or
+   … have no translation at HEAD: C16_compile_rejects_unsupported.) *)
+Theorem C16_compile_covered : forall (p : slist) (st : cstate),
+  compile p = COk st -> plain_slist p = true -> lfrag_slist p = true.
+Proof. exact compile_covered. Qed.
+Print Assumptions C16_compile_covered.
+
+(* … hence compile_correct_locals for every accepted program without element
+   stores (_partial: element stores — Vm.v has value semantics for arrays and
+   maps, its OpSetIndex only checks —; nb_slist: no break outside a loop, a
+   parse error; termination without run-time error and the stack guard as
+   before). *)
+Theorem C16_compile_correct_plain_partial : forall (p : slist) (st : cstate) (fuel : nat) (env' : senv),
+  compile p = COk st -> plain_slist p = true -> nb_slist p = true ->
+  lx_l fuel p [[]] = Some (env', false) ->
+  (st_local_count (csym st) + ldepth p <= Gen.Opcodes.StackSize)%N ->
+  let prog := program_of (bytecode_of st) in
+  exists s, reaches prog (vm_init prog) s /\
+            vm_step prog s = Halted s /\ ostack s = [] /\
+            forall n y v, st_resolve n (csym st) = Some y -> slook n env' = Some v ->
+                          nth_error (globals s) (N.to_nat (sidx y)) = Some v.
+Proof. exact compile_correct_plain. Qed.
+Print Assumptions C16_compile_correct_plain_partial.
 
 (* ---------- the compiler's output is well formed (straight-line fragment) ---------- *)
 (* For every top-level program made of declarations `x := e` and assignments
@@ -721,6 +751,14 @@ Example C16_ex_straightline_semantics :
   | None => False
   end /\ (prog_depth p <= Gen.Opcodes.StackSize)%N.
 Proof. vm_compute. repeat split; try reflexivity. discriminate. Qed.
+
+(* an element store is what plain excludes: a := [1 2]; a[0] = 5 compiles, and is not plain *)
+Example C16_ex_store_not_plain :
+  let p := SCons (SDecl (s_ "a") (EArr (ECons (ENum (float_of_Z 1)) (ECons (ENum (float_of_Z 2)) ENil))))
+          (SCons (SAssign (EIndex (EVar (s_ "a")) (ENum (float_of_Z 0))) (ENum (float_of_Z 5))) SNil) in
+  (match compile p with COk _ => True | CErr _ => False end) /\ plain_slist p = false /\ lfrag_slist p = false /\
+  plain_slist ex_nested = true /\ plain_slist ex_slice = true /\ plain_slist ex_map = true.
+Proof. vm_compute. repeat split; reflexivity. Qed.
 
 Example C16_ex_wf_fragment :
   let p := SCons (SDecl (s_ "x") (ENum (float_of_Z 7)))
